@@ -32,7 +32,7 @@ var themes []theme
 
 func init() {
 	themes = []theme{
-		{"generic", nil}, {"generic", nil}, {"generic-tiny", nil},
+		{"generic", nil}, {"generic", nil}, {"generic-tiny", nil}, {"generic-gov", nil},
 		{"C02", runC02}, {"C03", runC03}, {"C04", runC04}, {"C05", runC05}, {"C06", runC06}, {"C07", runC07}, {"C08", runC08},
 		{"C10", runC10}, {"C11", runC11}, {"C12", runC12}, {"C13", runC13}, {"C16", runC16}, {"C17", runC17}, {"C18", runC18},
 		{"C19", runC19}, {"C20", runC20}, {"C21", runC21}, {"C22", runC22}, {"C23", runC23}, {"C24", runC24}, {"C42", runC42},
@@ -40,7 +40,7 @@ func init() {
 }
 
 // runThemed runs one history of a drawn theme with `attach` called on every World created.
-func runThemed(r *simrt.Run, classes []string, attach func(w *World), generic func(r *simrt.Run, tiny bool)) {
+func runThemed(r *simrt.Run, classes []string, attach func(w *World), generic func(r *simrt.Run, variant string)) {
 	t := themes[r.Draw("cfg", len(themes))]
 	r.Probe("theme_" + t.name)
 	r.Logf("history theme: %s", t.name)
@@ -50,7 +50,7 @@ func runThemed(r *simrt.Run, classes []string, attach func(w *World), generic fu
 	})
 	defer func() { worldInitHooks = nil }()
 	if t.fn == nil {
-		generic(r, t.name == "generic-tiny")
+		generic(r, t.name)
 		return
 	}
 	r.OnlyClasses = map[string]bool{}
@@ -60,13 +60,17 @@ func runThemed(r *simrt.Run, classes []string, attach func(w *World), generic fu
 	t.fn(r)
 }
 
-// genericHistory is the base generator; `tiny` adds the degenerate economy (relays of 1..3 CU with
+// genericHistory is the base generator; variant generic-gov adds governance parameter changes, generic-tiny adds the degenerate economy (relays of 1..3 CU with
 // zero QoS scores, so that tracked CU can be zero although relays were paid).
-func genericHistory(r *simrt.Run, tiny bool) {
+func genericHistory(r *simrt.Run, variant string) {
 	w8 := baseWeights()
-	if tiny {
+	switch variant {
+	case "generic-tiny":
 		w8["tiny_relays"] = 25
 		w8["relay"] = 3
+	case "generic-gov":
+		// arbitrary valid parameter-change proposals of the lava modules between the operations
+		w8["gov_param"] = 8
 	}
 	cfg := mkCfg(r, w8, 80, 400)
 	s := NewSim(r, cfg)
